@@ -588,7 +588,11 @@ impl DrawExecutor {
         };
 
         for ch in string_parameter.chars() {
-            let data = self.font_8px.get_glyph(ch).unwrap().data.clone();
+            // a character the Atari font has no glyph for (anything above U+00FF) leaves a blank cell
+            let data = match self.font_8px.get_glyph(ch) {
+                Some(glyph) => glyph.data.clone(),
+                None => vec![0; char_size.height.max(0) as usize],
+            };
             for y in 0..font_size.height {
                 for x in 0..font_size.width {
                     let iy = (y as f32 / font_size.height as f32 * char_size.height as f32) as i32;
